@@ -1,4 +1,5 @@
 import Resgate.Proofs.Access
+import Resgate.Proofs.GwPure
 
 /-
 C05 — Call gating and token currency.  (Pure part: which methods an access answer grants.)
@@ -30,6 +31,19 @@ theorem canCall_not_substring (call action : Bytes) (hstar : call ≠ [cStar])
     rcases (canCall_spec call action).mp hc with h1 | ⟨_, h2⟩
     · exact absurd h1 hstar
     · exact absurd h2 h
+
+/-- What the gateway model does with an access answer when a call is waiting for it (the decision
+    taken at both call sites, WebSocket and HTTP): the call goes on to the service iff the answer
+    carries no error and its call list is `*` or has the method as an exact entry; an answer with an
+    error refuses the call with that very error. -/
+theorem call_forwarded_iff (a : Gw.Access) (action : String) :
+    (a.canCallE action = none ↔
+      a.err = none ∧ (Gw.toBytes a.call = [cStar] ∨
+        (Gw.toBytes a.call ≠ [] ∧ Gw.toBytes action ∈ splitOn cComma (Gw.toBytes a.call)))) ∧
+    (∀ e, a.err = some e → a.canCallE action = some e) := by
+  refine ⟨Gw.canCallE_spec a action, ?_⟩
+  intro e h
+  simp [Gw.Access.canCallE, h]
 
 -- Non-vacuity: "set,get" grants "get", not "ge", "et" or "set,get".
 example : canCall [115, 101, 116, 44, 103, 101, 116] [103, 101, 116] = true := by decide
